@@ -45,7 +45,7 @@ func init() {
 			},
 			NonTrivial: func(rs []*orch.Result) (int64, map[string]interface{}) {
 				k := orch.UnionDistinct(rs, "outcome_classes")
-				ex := sumCounters(rs, "batch_outcomes_checked", "conversion_amounts_checked", "history_folds", "history_rows_folded", "fold_addresses_compared", "api_keys_paged", "api_multi_page_keys", "api_actions_returned", "api_requests")
+				ex := sumCounters(rs, "batch_outcomes_checked", "conversion_amounts_checked", "history_folds", "history_rows_folded", "fold_addresses_compared", "api_keys_paged", "api_multi_page_keys", "api_actions_returned", "api_requests", "peg_requests_allotted_zero_with_refund")
 				ex["outcome_classes"] = len(k)
 				return int64(len(k)) + orch.SumCounter(rs, "api_multi_page_keys") + orch.SumCounter(rs, "history_folds"), ex
 			}, Min: 20})
